@@ -72,7 +72,7 @@ def lake_build(targets):
     return r.returncode == 0, r.stdout.decode(errors='replace')
 
 # ---------------------------------------------------------------- running a stream
-def run_impl(binary, inp_path, exp_path, per_case_timeout=10.0, env=None):
+def run_impl(binary, inp_path, exp_path, per_case_timeout=10.0, env=None, rlimit_as_mb=None):
     """Run the real crate over all lines in a worker process.  A dead worker (stack overflow, abort) or a worker that
     produces no answer for `per_case_timeout` seconds (hang) is restarted after the killing line, which gets the
     answer `crash` / `timeout`."""
@@ -82,7 +82,14 @@ def run_impl(binary, inp_path, exp_path, per_case_timeout=10.0, env=None):
     answers, crashes = [], []
     start = 0
     while start < len(lines):
-        p = subprocess.Popen([binary, 'run'], stdin=subprocess.PIPE, stdout=subprocess.PIPE, stderr=subprocess.DEVNULL, env=env or ENV)
+        pre = None
+        if rlimit_as_mb:
+            # fault injection: the worker runs with a small address-space limit, so that anything that needs a big allocation or a new
+            # thread (with its stack) is REFUSED by the OS at that point; the unchanged code needs neither for these inputs
+            import resource
+            lim = int(rlimit_as_mb) * 1024 * 1024
+            pre = lambda: resource.setrlimit(resource.RLIMIT_AS, (lim, lim))
+        p = subprocess.Popen([binary, 'run'], stdin=subprocess.PIPE, stdout=subprocess.PIPE, stderr=subprocess.DEVNULL, env=env or ENV, preexec_fn=pre)
         chunk = ('\n'.join(lines[start:]) + '\n').encode()
         def feed():
             try: p.stdin.write(chunk); p.stdin.close()
@@ -346,7 +353,7 @@ def main():
             body = open(inp).read(); open(inp, 'w').write('\n'.join(clines) + ('\n' if clines else '') + body)
         ts = time.time()
         senv = dict(ENV, TZ=st['tz']) if st.get('tz') else ENV
-        lines, exp, crashes = run_impl(bins[build], inp, os.path.join(workdir, f'{name}-{build}.exp'), st.get('case_timeout', 10.0), env=senv)
+        lines, exp, crashes = run_impl(bins[build], inp, os.path.join(workdir, f'{name}-{build}.exp'), st.get('case_timeout', 10.0), env=senv, rlimit_as_mb=st.get('rlimit_as_mb'))
         if st.get('repeat_process'):
             # a second, fresh process (new hasher seeds) evaluating the same calls in REVERSED order (another call history)
             rinp = os.path.join(workdir, f'{name}-{build}.rev.in'); open(rinp, 'w').write('\n'.join(reversed(lines)) + '\n')
